@@ -72,8 +72,9 @@ def run(ctx):
     nm = 600 if quick else 15000
     for k in range(nm):
         f = c01.rand_format(ctx.rng)
-        rc = c01.rand_recipe(ctx.rng, f)
         kind = ctx.rng.choice(["surplus", "unknown", "flagvalue", "stripvalue", "dropreq"])
+        # the shape is a hint that makes the mutation applicable more often; TLC decides applicability (MutPre)
+        rc = c01.rand_recipe(ctx.rng, f, {"surplus": "allpos", "dropreq": "reqlast"}.get(kind))
         j = ctx.rng.randint(1, max(1, len(f["opts"])))
         want = {"flagvalue": ("none",), "stripvalue": ("req", "multi")}.get(kind)
         if want:  # a hint only: TLC decides applicability (MutPre)
